@@ -517,6 +517,8 @@ class Interp:
         if m:
             lo, hi = trange(m.group(1))
             return IntV(lo if m.group(2) == "MIN" else hi, m.group(1))
+        if name in ("RangeFull", "core::ops::RangeFull"):
+            return UnitV()
         gen = getattr(self, "generic", {}) or {}
         if name in gen:
             v, ty = gen[name]
